@@ -1,5 +1,4 @@
-import CollectionsC.Properties.C09Queue
-import CollectionsC.Proofs.DequeCross
+import CollectionsC.Properties.C06Queue
 /-! # C16 (queue part) — rejected operations are inert
 
 The adapter has no index arguments; its rejected calls are `poll`/`peek` on an empty queue, iterator
@@ -8,13 +7,15 @@ namespace CC.Properties.C16Queue
 open CC CC.Properties.C09Queue
 
 /-- **error_is_inert**: any status other than `CC_OK` leaves the whole physical state of the queue (its
-inner deque) unchanged -/
+inner deque) unchanged, and the ledger balanced -/
 theorem error_is_inert (q : Queue) (m : Mem) (op : Op) (hi : q.Inv) (s : Stat)
-    (hst : (stepQ q m op).1.st = some s) (hne : s ≠ .ok) : (stepQ q m op).2.1 = q := by
+    (hst : (stepQ q m op).1.st = some s) (hne : s ≠ .ok) :
+    (stepQ q m op).2.1 = q ∧ Deque.memSame q.triple (stepQ q m op).2.2 m := by
+  refine ⟨?_, (C06Queue.step_safe q m op hi).2.1⟩
   cases op with
   | enqueue x =>
     simp only [stepQ, Queue.enqueue, Option.some.injEq] at hst ⊢
-    rcases Deque.addFirst_spec q.d x m hi with ⟨a1, _⟩ | ⟨_, a2, _⟩
+    rcases Deque.addFirst_spec q.d x m hi.1 with ⟨a1, _⟩ | ⟨_, a2, _⟩
     · rw [a1] at hst; exact absurd hst.symm hne
     · cases q; simp only at a2 ⊢; rw [a2]
   | poll =>
@@ -50,5 +51,8 @@ theorem iterator_error_is_inert (it : Deque.Iter) (q q2 : Queue) (x y : Nat) (m 
   · obtain ⟨a1, a2, a3⟩ := Deque.zipReplace_error_inert it q.d q2.d x y m h
     simp only [Queue.zipReplace, a1, a2, a3]
     exact ⟨(by first | rfl | trivial), (by first | rfl | trivial), (by first | rfl | trivial)⟩
+
+/-- non-vacuity: `poll` on an empty queue -/
+example : (stepQ ⟨Deque.mk 0 2 1 1 [0, 0] .conf, .conf⟩ {} .poll).1 = ⟨some .errOutOfRange, none⟩ := by decide
 
 end CC.Properties.C16Queue
